@@ -422,7 +422,7 @@ def test_symsql(seed):
             stores["real"], stores["sym"] = open_(sqlite3), open_(symsql)
             for step in range(40):
                 op = rnd.choice(["storeSession", "deleteSession", "deleteAll", "containsSession", "subDevices", "saveIdentity", "trusted", "storePreKey", "removePreKey", "containsPreKey",
-                                 "setAsSent", "maxPreKey", "unsent", "nullcmp", "storeSigned", "removeSigned", "storeSenderKey", "loadSenderRaw", "die", "regid", "pragma"])
+                                 "setAsSent", "maxPreKey", "unsent", "nullcmp", "storeSigned", "removeSigned", "storeSenderKey", "loadSenderRaw", "die", "regid", "pragma", "literal"])
                 r, i, g = rnd.choice([11, 22, 33]), rnd.choice([5, 6, 7]), rnd.choice(["g1@g.us", "g2@g.us"])
                 sender = rnd.choice(["4915901", "77"])
                 blob = bytes([rnd.randrange(256) for _ in range(rnd.randrange(1, 9))])
@@ -480,6 +480,9 @@ def test_symsql(seed):
                             conn.commit()
                             out = (jmode, conn.execute("PRAGMA journal_mode = %s" % jmode).fetchone(), conn.execute("PRAGMA journal_mode").fetchone(),
                                    conn.execute("PRAGMA synchronous = %s" % sync).fetchone(), conn.execute("PRAGMA synchronous").fetchone())
+                        elif op == "literal":
+                            c = st.preKeyStore.dbConn.cursor()
+                            out = [c.execute("SELECT 1 FROM prekeys WHERE prekey_id = ?", (i,)).fetchone(), sorted(c.execute("SELECT 'x', prekey_id, 7 FROM prekeys").fetchall())]
                         elif op == "regid":
                             out = (st.getLocalRegistrationId(), [bytes(x) for x in st.identityKeyStore.dbConn.cursor().execute("SELECT public_key, private_key FROM identities WHERE recipient_id = -1").fetchone()])
                         elif op == "die":
